@@ -50,6 +50,7 @@ class TypeData:
                 List[str],
             ],
         ] = {}
+        self._reserved_names: set = set()
 
     def add_type_info(
         self,
@@ -67,8 +68,15 @@ class TypeData:
     ) -> bool:
         return type_def.id_ in self._id_data
 
+    def reserve_name(self, type_name: str) -> None:
+        # The name of a type whose members are still being generated (it is added
+        # once they are done): nested literals must not take it.
+        self._reserved_names.add(type_name)
+
     def has_name(self, type_name: str) -> bool:
-        return any(type_name == name for name, _, _ in self._id_data.values())
+        return type_name in self._reserved_names or any(
+            type_name == name for name, _, _ in self._id_data.values()
+        )
 
     def get_by_name(self, type_name: str) -> List[TypesWithId]:
         return [type_name == name for name, _, _ in self._id_data.values()]
@@ -687,6 +695,7 @@ def generate_literal_struct_type(
         return type_def.name
 
     type_def.name = generate_literal_struct_name(type_def, types, spec, name_context)
+    types.reserve_name(type_def.name)
 
     inner = []
     for prop_def in type_def.value.properties:
